@@ -4,7 +4,7 @@ HOOKS = {
     "guard": "roto_verif",
     "enable": "RUSTFLAGS='--cfg roto_verif' (set in /verif/harness/.cargo/config.toml: the harness crate has a path dependency on /repo, so every check rebuilds /repo's working tree with the hooks compiled in)",
     "baseline_off_cmd": "cd /repo && (cargo nextest run --workspace --no-fail-fast --test-threads 8 --offline || cargo test --workspace --no-fail-fast --offline)",
-    "source_commits": ["c89369c", "9f183fd"],
+    "source_commits": ["c89369c", "9f183fd", "9ab63bf", "11a3b69", "6a48d12", "b4093ab", "ae7820e"],
     "add_only": True,
 }
 
@@ -25,6 +25,41 @@ NOTES = ("Technique family: model-based verification with explicit TLA+ specific
 NOT_APPLICABLE = {}
 
 CHECKS = {
+    "C04": {
+        "text": "TypeGate.tla defines Maps (Rust type -> Roto type, recursively through Option/List/Result/Verdict, registered Val types by identity), Gate (same arity, every parameter and the return Maps-equal) and the filtermap rule (Verdict of its payload types, () for unused/bare sides, literals default to i32/f64). TLC enumerates complete verdict tables (860x860 single-position pairs at depth <=1 in return and parameter position, 575 filtermap forms, arity ladder 0..8 x name classes; thorough 1412^2/1196^2 with depth 2-3) and each table is replayed into the real crate: get_function::<F>(name) for every F of a compiled-in table of 3145 Rust fn types generated from TLC's universe; the handed-out set must equal TLC's set. Seeded random retrievals are recorded and validated by TLC in both directions (TraceTypeGate.tla: result = ok <=> Gate).",
+        "note": "Rust side limited to the compiled table (arity <=7, depth <=3 with restricted leaf sets beyond depth 1); single-file scripts; error kind recorded, not asserted; smoke calls only for parameterless functions.",
+        "technique": "TLA+ spec (TypeGate) + TLC exhaustive verdict tables replayed into get_function over a generated Rust type table + TLC trace validation of random retrievals",
+    },
+    "C11": {
+        "text": "Lifetime.tla models runtime, packages, handles and the resources they hold (module = machine code + script constants; registered constant; closure capture) with holder sets and reference counts; invariants RefCountsExact, FreedIffUnheld, CallValid and the action properties NoResurrection and Isolation are model-checked on the complete state graph within the bounds. Every TLC behaviour up to length 6 (quick) / 8 (thorough), five forced prefixes and seeded simulation walks are replayed on real roto objects (drop-tracked host values in script constants, registered constant, closure capture; move-to-thread); per-step live-instance counts and call results are compared with the specification. Seeded random long histories executed on the real crate are validated by TLC (TraceLifetime.tla).",
+        "note": "Exhaustive for <=2 script versions, <=2 packages, <=3 handles, <=2 runtimes up to the stated history length; machine code is observed only indirectly (calls keep returning the specified value; a worker signal is a violation); JIT memory itself is not counted.",
+        "technique": "TLA+ spec (Lifetime) + TLC exhaustive state graph and behaviour generation replayed on real objects + TLC trace validation of recorded histories",
+    },
+    "C13": {
+        "text": "Scopes.tla specifies file discovery (pkg.roto, name.roto, name/mod.roto), the scope graph and the lookup rules (declarations, then imports, then outward; later segments direct members only; leading supers; absolute pkg; order-independent import fixpoint). TLC enumerates file sets x item placements x probing module x nine reference-form families x block levels and computes the designated item / error and the export set; every configuration is compiled by the real crate in memory and from disk and compared (compile outcome, tag returned through the reference, get_function by module path). Seeded random larger configurations are observed from the real compiler and validated by TLC against Scopes.Expected (TraceScopes.tla).",
+        "note": "Items are functions f/g and constant k; trees of depth <=2/width <=2 (+ one depth-3 tree), up to 7 modules; duplicate import aliases in one scope are unspecified and only checked for no crash; error messages not compared.",
+        "technique": "TLA+ spec (Scopes) + TLC enumeration of configurations replayed into the compiler (memory and disk) + TLC trace validation of random configurations",
+    },
+    "C14": {
+        "text": "ConstOrder.tla: EvalConst(c) is enabled iff c is unevaluated and every constant it reaches (also through functions) is evaluated; Reject is enabled iff some constant reaches itself or a context use and nothing has been evaluated; invariants Once, DepOrder, RejectFirst, ValuesAgree. TLC enumerates every dependency graph on <=3 items (all kind assignments, edge sets, context users), simulates 4-6 items with injected cycle/context use, and emits verdict, dependencies and spec-computed values; python renders each as a multi-module script (four layouts, permuted declaration order, many reference forms), the harness compiles it logging every mark() host call made during compilation, the outcome and later observed values; results are compared with the spec and the recorded event traces (plus seeded 7-10 item graphs) are validated by TLC as ConstOrder behaviours (any topological order passes).",
+        "note": "Only i32 constants of a fixed mark/fuel shape; only accept/reject compared (not error text); the order among independent constants is free.",
+        "technique": "TLA+ spec (ConstOrder) + TLC graph enumeration replayed as scripts + TLC trace validation of the compile-time host-call log",
+    },
+    "C16": {
+        "text": "ListConc.tla models every list operation as a sequence of segments between the pausing points of the real code (each Mutex::lock in list.rs; the start of the element clone in get), with allocation generations, held locks, and per-operation candidate results. TLC checks NoStaleUse, Linearizable, TypeOK and deadlock freedom exhaustively (2 threads x 2 ops; thorough 3x1, 2x3, 3x2) for the locking discipline the code actually follows, which three probe schedules determine on the real code (constants FixGet/FixSGet/FixEq/FixSEq/FixConcat). Behaviours generated by TLC (all of the 1-operation model + seeded simulation walks) are imposed step by step on real List handles shared by real threads through the cfg-guarded schedule points; after every step events, pausing point, completion and result must equal the specification's; a stale pointer use, a blocked thread or a non-linearizable result confirmed on the real code is a violation.",
+        "note": "Pausing points are the cfg-guarded hooks before every lock in list.rs plus the Clone of the harness element type during get; code between two pausing points runs unobserved; a change that adds locking the spec does not anticipate shows as a lock-structure divergence.",
+        "technique": "TLA+ spec (ListConc) + TLC exhaustive interleavings + TLC-generated schedules imposed on real threads via schedule points",
+    },
+    "C18": {
+        "text": "Registration.tla specifies Runtime::add declaratively (scope tree, registered Rust types, imported names): Err iff a name is not a valid non-keyword identifier, a name is taken in its scope, a Rust type is registered twice, or a signature/constant/impl mentions an unregistered type; otherwise every item is reachable at its declaration path and through every use, independent of item order; never a panic. TLC enumerates all ordered libraries of <=3 (quick) / <=4 (thorough) items over a 13-item vocabulary x one injected defect x one or two add calls with the specified outcome and probes; the harness builds each library with the public constructors (and library!), calls Runtime::add under catch_unwind and compiles a script per probe; outcomes and tags are compared. Seeded random libraries registered and probed by the harness are validated by TLC (TraceRegistration.tla).",
+        "note": "Exhaustive only over the stated vocabulary and bounds; where the property is silent (use of an empty/missing path, alias name equal to a declared name, where the alias of a use inside a module lands) only 'no panic' is required; error messages not compared; after an Err nothing is asserted.",
+        "technique": "TLA+ spec (Registration) + TLC exhaustive library generation replayed through the public registration API + TLC trace validation of random registrations",
+    },
+    "C19": {
+        "text": "TestRunner.tla is a transition system Compile/RunTest/Finish/CheckDone/RunEntry with invariants (each test exactly once, order = sorted full names, Ok iff all accept, tests neither callable nor shadowed, CLI exit table, run executes the entry once). TLC enumerates all packages with 0-3 tests x outcomes x declaration orders x 1-2 modules x same-named functions x one call, and all check/test/run invocations on valid/invalid scripts, emitting the expected mark log, verdict and exit class; each is replayed through Package::run_tests with a mark(k) host function and through the roto CLI built from /repo. Recorded runs of seeded random larger packages are validated by TLC (TraceTestRunner.tla).",
+        "note": "The order key pkg[.mod]*.test#name in byte order is taken from the implementation (the documentation only says tests are found and run); only marker lines printed by the scripts are searched on stdout; exit codes classified 0 / non-zero / signal.",
+        "technique": "TLA+ spec (TestRunner) + TLC enumeration of packages and CLI invocations replayed into run_tests and the CLI + TLC trace validation",
+    },
     "C15": {
         "text": "ListSeq.tla specifies lists as one shared growable array (heap of sequences + aliased handles, one action per API operation). TLC enumerates every behaviour up to a history bound from four initial configurations (incl. aliasing and growth boundaries) plus seeded walks, and checks the design invariants; every behaviour is replayed step by step into roto::List<T>, compiled scripts and alternating for six element kinds (u8, u64, String, nested List, zero-sized tracked, 24-byte tracked), comparing each result and the live-element count with the specification. Long random histories recorded from the real lists (growth to >1000 elements) are validated as ListSeq behaviours by TLC (TraceListSeq.tla).",
         "note": "Exhaustive only within the stated bounds (history length 2-4, 2-3 handles, 2 abstract values); element kinds are representatives; capacity only required >= len; a stalled operation (20 s without progress for microsecond operations) counts as non-termination.",
